@@ -392,7 +392,9 @@ fn check_is_valid_implementation(
         for arg in field.arguments.values() {
             let impl_arg = match impl_field.argument(&arg.name) {
                 Some(impl_arg) => impl_arg,
-                None if !arg.ty.is_nullable() => {
+                // the implementing field must accept every argument the interface
+                // field defines, nullable or not
+                None => {
                     return Err(format!(
                         "Field \"{}.{}\" requires argument \"{}\" defined by interface \"{}.{}\"",
                         implementing_type.name(),
@@ -403,7 +405,6 @@ fn check_is_valid_implementation(
                     )
                     .into());
                 }
-                None => continue,
             };
 
             if !arg.ty.is_subtype(&impl_arg.ty) {
